@@ -15,7 +15,15 @@ def snapshot(ds):
         if id(d) in seen:
             return
         seen.add(id(d))
-        v = {k: (id(x) if not isinstance(x, (int, str, bool, type(None), tuple)) else x) for k, x in vars(d).items() if not k.startswith('_keys')}
+        def cell(x):
+            if isinstance(x, (int, str, bool, type(None), tuple)):
+                return x
+            if type(x).__module__ == 'numpy' and hasattr(x, 'tolist'):
+                return (id(x), repr(x.tolist()))       # arrays by identity AND content (hidden state such as a permutation buffer)
+            if isinstance(x, list) and len(x) < 50 and all(isinstance(y, (int, str, bool, type(None))) for y in x):
+                return (id(x), repr(x))
+            return id(x)
+        v = {k: cell(x) for k, x in vars(d).items() if not k.startswith('_keys')}
         out.append((type(d).__name__, id(d), tuple(sorted((k, repr(x)) for k, x in v.items()))))
         for k in ('input_dataset',):
             if hasattr(d, k):
@@ -144,7 +152,13 @@ def freeze_family(ld, r, count):
                 continue
             plain = gen_a.obs_iter(plain_ds, False)
             try:
-                wrapped = gen_a.obs_iter(ld.core.ProfilingDataset(build()), False)
+                target = build()
+                snap = snapshot(target)
+                prof = ld.core.ProfilingDataset(target)
+                wrapped = gen_a.obs_iter(prof, False)
+                gen_a.obs_iter(prof, False)              # a second profiled epoch
+                if snapshot(target) != snap:
+                    fails.append(f'profiling new(range({n}){" keyed" if keyed else ""}).{".".join(lower + upper)} (seed {seed}) modified the wrapped pipeline object (hidden state of a stage changed)')
             except Exception as e:
                 wrapped = ('ctor', type(e).__name__)
             same = repr(plain) == repr(wrapped) or (plain[1] is not None and wrapped[0] != 'ctor' and wrapped[1] is not None
